@@ -133,3 +133,28 @@ def conflicts (fn, selfattrs=None, assume=None):
           t = ty(x, env, selfattrs)
           if t in (B, S, I) and t != b: out.append(Conflict(s, 'join', b, t, norm(s)[:80])); break
   return out
+
+def ord_of_bytes_elements (fnode):
+  """sites `ord(c)` where c is an element of something that is (or may be, per an isinstance guard that includes bytes)
+  a bytes object: iterating bytes yields ints in Python 3, so ord() raises TypeError.  Returns [ast.Call]."""
+  out = []
+  def bytes_like (it, guards):
+    if ty(it, {}) == B: return True
+    return norm(it) in guards
+  # names guarded by isinstance(x, (str, bytes)) / isinstance(x, bytes)
+  guards = set()
+  for n in ast.walk(fnode):
+    if isinstance(n, ast.Call) and isinstance(n.func, ast.Name) and n.func.id == 'isinstance' and len(n.args) == 2:
+      k = n.args[1]; names = [norm(x) for x in k.elts] if isinstance(k, ast.Tuple) else [norm(k)]
+      if 'bytes' in names: guards.add(norm(n.args[0]))
+  for n in ast.walk(fnode):
+    if isinstance(n, (ast.ListComp, ast.GeneratorExp, ast.SetComp)):
+      for gen in n.generators:
+        if isinstance(gen.target, ast.Name) and bytes_like(gen.iter, guards):
+          for c in ast.walk(n.elt):
+            if isinstance(c, ast.Call) and isinstance(c.func, ast.Name) and c.func.id == 'ord' and len(c.args) == 1 and norm(c.args[0]) == gen.target.id: out.append(c)
+    elif isinstance(n, ast.For) and isinstance(n.target, ast.Name) and bytes_like(n.iter, guards):
+      for b in n.body:
+        for c in ast.walk(b):
+          if isinstance(c, ast.Call) and isinstance(c.func, ast.Name) and c.func.id == 'ord' and len(c.args) == 1 and norm(c.args[0]) == n.target.id: out.append(c)
+  return out
